@@ -183,6 +183,53 @@ def c14(c):
                     "monitor in TLC (Trace_Monitor!Isolation); conformance of the values with the state machine is C13's business; distinct = bus transitions")
 
 
+# --------------------------------------------------------------------------- C06 / C07 / C19
+def c06(c):
+    gen_and_replay(c, "MC_Page", "C06", "state graph of page images under set/clear/set-all/out-of-bounds, replayed on Page::new and on Page::from_bytes(&borrowed)",
+                   workers=10, coverage=False)
+    shards = 16 if c.tier == "thorough" else 6
+    files, n, _ = vlib.record("C06", c.tier, c.seed, shards)
+    c.validate("Trace_Page", "Trace_Page.cfg", files, ["record", "C06"], procs=PROCS, timeout=3000)
+    c.assumptions += ["pixels are observed through get_pixel for every in-bounds coordinate after every operation; header = first 4 bytes, padding = bytes "
+                      "beyond 4 + w*ceil(h/8); the unused high bits of a column are not constrained after set_all_pixels",
+                      "model box: every width 0..6 x height in {0,1,2,3,7,8,9,12} with area <= 6 (quick) / 12 (thorough, plus 1x16 and 1x17)"]
+    c.exhaustive = True
+    return c.finish("model_checking",
+                    "M: full reachability of byte images for every size of the box; the C06 relations (SetPixelRel, SetAllRel, out-of-bounds = panic and "
+                    "unchanged) hold for every operation from every image; G: every model transition replayed on an owned and on a borrowed real page, "
+                    "comparing result and projection; V: random operation sequences on the 11 real sizes, random sizes up to 40x33 (200x33 in thorough) and "
+                    "zero-sized pages, owned and borrowed with arbitrary header/padding bytes, judged by the relations on observations; distinct = operations")
+
+
+def c07(c):
+    gen_and_replay(c, "MC_Layout", "C07", "expected fresh image, single-pixel images and from_bytes verdicts per size", workers=10, coverage=False)
+    shards = 16 if c.tier == "thorough" else 6
+    files, n, _ = vlib.record("C07", c.tier, c.seed, shards)
+    c.validate("Trace_Page", "Trace_Page.cfg", files, ["record", "C07"], procs=PROCS, timeout=3000)
+    c.assumptions += ["model box: widths 0..12 (quick) / 0..64 (thorough) x heights 0..33, plus the 11 real sizes",
+                      "raw bytes are compared: this property is the layout"]
+    return c.finish("model_checking",
+                    "M: shape of a new page, injectivity and range of the pixel index, LSB-on-top, from_bytes acceptance as invariants over every size of the "
+                    "box; G: expected images replayed (all ids 0/0x7F/0x80/0xFF, every pixel, candidate lengths); V: all ids 0..=255 on small real sizes, "
+                    "every size 0..48 x 0..33 in thorough, large sizes (1000x16, 255x255, 4096x8, 65532x1), recorded from the real code and checked by TLC "
+                    "against the layout formulae; distinct = pages, pixels and candidate lengths")
+
+
+def c19(c):
+    c.mc("MC_SignType", mc_cfg("MC_SignType", c.tier), workers=8, timeout=1800, coverage=False)
+    shards = 16 if c.tier == "thorough" else 2
+    files, n, _ = vlib.record("C19", c.tier, c.seed, shards)
+    c.validate("Trace_C19", "Trace_C19.cfg", files, ["record", "C19"], procs=PROCS, timeout=3000)
+    c.assumptions += ["the set of supported (family, id) pairs is built from the blocks the real code reports for its 11 types",
+                      "thorough covers all 65536 (family, id) pairs; quick both real families x 256 ids, 256 families x 3 ids and 2000 random pairs"]
+    return c.finish("model_checking",
+                    "M: the documented table is self-consistent (field relations, decode-back, virtual-sign derivation) and TypeFromBytes is total with the "
+                    "length and acceptance rules over all (family, id) pairs and lengths 0..40; V: for each of the 11 real types the real block, dimensions, "
+                    "decode-back and what a real VirtualSign configured with the block stores are checked by relations in TLC; (family, id) pairs with "
+                    "the other 14 bytes varied and byte strings of every length 0..=40 are decoded by the real code under catch_unwind and judged; "
+                    "distinct = blocks decoded")
+
+
 # --------------------------------------------------------------------------- C08
 def c08(c):
     cfgs = ["thorough", "thorough_auto", "thorough_tiny"] if c.tier == "thorough" else ["quick", "quick_auto"]
@@ -310,4 +357,4 @@ def c09(c):
                     "the recorded conversations are checked by the same monitor in TLC; distinct = conversations")
 
 
-CHECKS = {"C08": c08, "C09": c09, "C10": c10, "C11": c11, "C12": c12, "C13": c13, "C14": c14, "C01": c01, "C02": c02, "C03": c03, "C04": c04, "C05": c05}
+CHECKS = {"C06": c06, "C07": c07, "C19": c19, "C08": c08, "C09": c09, "C10": c10, "C11": c11, "C12": c12, "C13": c13, "C14": c14, "C01": c01, "C02": c02, "C03": c03, "C04": c04, "C05": c05}
